@@ -15,7 +15,10 @@ func validateIPv6Literal(host []byte) error {
 	if len(host) == 0 || host[0] != '[' {
 		return nil
 	}
-	end := bytes.IndexByte(host, ']')
+	// parseHost delimits the literal at the last ']' (the port follows it), so
+	// the address must be validated up to that same bracket: "[::1]x]" is not
+	// an IPv6 literal.
+	end := bytes.LastIndexByte(host, ']')
 	if end < 0 || end == 1 {
 		return errInvalidIPv6Host
 	}
